@@ -117,7 +117,7 @@ def rule_default(E, R, rule="R01-default", only=None, floor=12):
         k += 1
         uses = []
         for m in exprs(clo["body"], "MethodCall"):
-            if m["m"] in ("map_or", "unwrap_or") and local_name(m["args"][0]) == "default":
+            if m["m"] in ("map_or", "unwrap_or") and is_param(m["args"][0], ho, 2):
                 uses.append(m["m"])
             elif m["m"] in ("map_or", "unwrap_or", "unwrap_or_default", "unwrap_or_else", "map_or_else", "is_some_and", "is_ok_and"):
                 uses.append("!" + m["m"])
@@ -130,7 +130,7 @@ def rule_default(E, R, rule="R01-default", only=None, floor=12):
     hw = E.hir(fw)
     if hw:
         ones = [c for c in exprs(hw["body"], "MethodCall") if c["m"] == "compile_one_with"]
-        R.check(len(ones) == 1 and local_name(ones[0]["args"][1]) == "default", rule, fw,
+        R.check(len(ones) == 1 and is_param(ones[0]["args"][1], hw, 2), rule, fw,
                 "compile_with forwards `default` to compile_one_with", where=hw["span"])
     else:
         R.cannot(rule, fw, "anchor not found")
